@@ -51,7 +51,7 @@ inline RunResult runApi(const SolverCfg& cfg, int gridFile, const std::string& f
         return r;
     }
     try {
-        if (poison) {
+        if (poison == 1 || poison == 2) {
             // the same object first receives a combination that setup() must reject; the exception is caught and the real
             // configuration applied afterwards: a rejected call must leave nothing behind (the two runs of a record are
             // compared bit for bit)
@@ -119,6 +119,31 @@ inline RunResult runApi(const SolverCfg& cfg, int gridFile, const std::string& f
         } restore{savedOut};
         scribbleStack(pattern);
         s->setup();
+        if (poison == 3 || poison == 4) {
+            // between a successful setup() and solve(): a setup() that is rejected (before it touches the hierarchy), the
+            // offending option restored, then solve() - as if the rejected call had never happened
+            const auto keepM = s->stencilDistributionMethod();
+            const bool keepG = s->cacheDomainGeometry();
+            const int keepL  = s->maxLevels();
+            if (poison == 3) {
+                s->stencilDistributionMethod(StencilDistributionMethod::CPU_TAKE);
+                s->cacheDomainGeometry(false);
+            }
+            else
+                s->maxLevels(1);
+            bool rejected = false;
+            try {
+                s->setup();
+            }
+            catch (const std::exception&) {
+                rejected = true;
+            }
+            s->stencilDistributionMethod(keepM);
+            s->cacheDomainGeometry(keepG);
+            s->maxLevels(keepL);
+            if (!rejected)
+                s->setup(); // (the must-reject oracle reports it; keep the object consistent)
+        }
         scribbleStack(pattern);
         s->solve();
         r.its = s->numberOfIterations();
@@ -482,7 +507,7 @@ inline KV genOptionsCase()
         c.putI("grid_file", rweighted({8, 1, 1, 1, 1, 1}));
         c.putI("verbose2", rweighted({1, 1, 1})); // verbosity of the second run (the first one is silent)
         c.putI("paraview2", rweighted({3, 1}));
-        c.putI("poison2", rweighted({5, 1, 1}));
+        c.putI("poison2", rweighted({6, 1, 1, 1, 1}));
         c.putI("write_grid", rweighted({4, 1}));
     }
     else {
